@@ -89,7 +89,7 @@ def step (st : State) (args : List String) : State × String :=
     match st.get id with
     | none => (st, "bad-op")
     | some s =>
-      if op == "mon" then (st, "mon")
+      if op == "mon" || op == "burst" || op == "doneall" || op == "settle" then (st, "mon")
       else if op == "gauges" then (st, if s.undefined then "undef" else if s.returned then "ok gone" else gauges s)
       else if op == "end" then
         (st.set id { s with returned := true, rlStopped := true, slStopped := true }, if s.undefined then "undef" else "ok returned")
